@@ -27,7 +27,7 @@ LEVEL = "exploration"
 RUNS = {"quick": 40000, "thorough": 1000000}
 WALL = {"quick": 240, "thorough": 1500}
 PARTITIONS = [{"name": "default", "env": {}}]
-FAULT_KINDS = ["accumulate_into_result", "operand_swap", "tree_shape", "empty_partial", "dtype_mix", "adaptive_union", "refusal_probe",
+FAULT_KINDS = ["shared_binning_object", "accumulate_into_result", "operand_swap", "tree_shape", "empty_partial", "dtype_mix", "adaptive_union", "refusal_probe",
                "self_add", "member_filled_between_sums", "dask_task_reorder", "dask_duplicate_exec", "dask_workers>1", "dask_chunking"]
 RULE = ("one run = a seeded stream (<= 30 entries) partitioned over 1-5 partial histograms (fixed equal bins or "
         "adaptive fixed-width on a common grid; mixed dtypes; facade or fill_n) reduced by a seeded sequence of "
@@ -124,6 +124,15 @@ def generate(rng, seed, part):
                          "path": rng.choice(["construct", "fill_n", "fill_n", "fill" if not bulk else "fill_n"]),
                          # in adaptive mode some partials are frozen (non-adaptive) on the common grid afterwards
                          "frozen": mode == "adaptive" and bool(idx) and rng.random() < 0.25})
+    if mode == "adaptive":
+        # the public API lets two histograms be built over one binning OBJECT (h1(data, a.binning),
+        # Histogram1D(binning=a.binning), HistogramCollection.create): a later in-place `a += c` that has to
+        # extend a's range must leave the other histogram alone
+        for p in range(1, P):
+            q = rng.randrange(p)
+            if rng.random() < 0.25 and not partials[p]["frozen"] and not partials[q]["frozen"] \
+                    and partials[q].get("share") is None:
+                partials[p]["share"] = q
     ops = []
     nodes = list(range(P))  # node ids; new results get fresh ids
     nxt = P
@@ -298,6 +307,34 @@ def build_partial(cfg, entries, spec):
     return freeze(h)
 
 
+def build_sharing_partial(cfg, entries, spec, base):
+    """A partial built over the very binning object(s) of another one; it only receives the entries of its share that
+    lie inside the current bins (so that nothing grows while the objects are shared)."""
+    from physt.histogram1d import Histogram1D
+    from physt.histogram_nd import Histogram2D, HistogramND
+
+    ndim = cfg["ndim"]
+    idx = [i for i in spec["idx"] if i < len(entries)]
+    lo = [float(np.asarray(b.bins)[0, 0]) for b in base.binnings]
+    hi = [float(np.asarray(b.bins)[-1, 1]) for b in base.binnings]
+    inside = []
+    for i in idx:
+        v = entries[i][0]
+        v = [v] if ndim == 1 else v
+        if all(lo[a] <= v[a] < hi[a] for a in range(ndim)):
+            inside.append(i)
+    dtype = {"dtype": np.dtype(spec["dtype"])} if spec["dtype"] else {}
+    if ndim == 1:
+        h = Histogram1D(binning=base.binning, **dtype)
+    else:
+        h = (Histogram2D if ndim == 2 else HistogramND)(list(base.binnings), **dtype)
+    if inside:
+        data, weights = entry_arrays(entries, inside, ndim, cfg["weights"])
+        kw = {} if weights is None else {"weights": weights}
+        h.fill_n(data[:, 0] if ndim == 1 else data, **kw)
+    return h, inside
+
+
 def direct_replica(cfg, entries, bag, like):
     """All-at-once construction of the bag over the bins `like` reports (fresh, static copies)."""
     from physt import h as f_h, h1 as f_h1
@@ -363,6 +400,15 @@ def execute(plan, ctx, rules=("C05",)):
     if len(set(p["dtype"] for p in cfg["partials"])) > 1:
         ctx.fault("dtype_mix")
     for p, spec in enumerate(cfg["partials"]):
+        base = nodes.get(spec.get("share")) if spec.get("share") is not None else None
+        if base is not None and all(b.bin_count for b in base.h.binnings) and base.h.is_adaptive():
+            ok, h = attempt(build_sharing_partial, cfg, entries, spec, base.h)
+            if ok:
+                h, inside = h
+                ctx.ev("map", "partial:shares-binning-object", p, "ok")
+                ctx.fault("shared_binning_object")
+                nodes[p] = Node(h, inside)
+                continue
         ok, h = attempt(build_partial, cfg, entries, spec)
         ctx.ev("map", f"partial:{spec['path']}", p, "ok" if ok else exc_tag(h))
         if not ok:
